@@ -120,9 +120,14 @@ func init() {
 			if c.replay == nil && !directed && i%20 == 10 {
 				directed, directedKind = true, "capVarReuse"
 			}
+			if c.replay == nil && directedKind == "meta" && i%10 == 9 {
+				directedKind = "metaRead"
+			}
 			switch directedKind {
 			case "capVarReuse":
 				prog = g.capVarReuseProgram(false)
+			case "metaRead":
+				prog = g.metaReadThenWriteProgram()
 			case "meta":
 				prog = g.metaOverrideProgram()
 			case "unbounded":
@@ -410,7 +415,11 @@ func (c *Ctx) c11Case(sc Scenario) {
 	// initialised package state is first touched concurrently)
 	same := true
 	raceFree := true
-	if os.Getenv("VERIF_RACE_CHILD") == "1" || !raceBuild {
+	if !unchanged {
+		// the run writes into the maps it was given: sharing them between goroutines would be a data
+		// race that kills the process (Go's "concurrent map writes"); the case already fails on inputs_unchanged
+		c.count("concurrency_skipped_inputs_modified")
+	} else if os.Getenv("VERIF_RACE_CHILD") == "1" || !raceBuild {
 		same = concurrentSame(sc)
 	} else {
 		// race build: run the concurrent part in a child process so that a report can be attributed
